@@ -156,13 +156,51 @@ HUGE = {
 
 
 def mem_available_gib():
+    """memory this process may still use: MemAvailable of the host, capped by the cgroup limit (minus its usage) if there is one"""
+    avail = 0.0
     try:
         for ln in open("/proc/meminfo"):
             if ln.startswith("MemAvailable:"):
-                return int(ln.split()[1]) / (1 << 20)
+                avail = int(ln.split()[1]) / (1 << 20)
     except OSError:
+        return 0.0
+    try:
+        cg = "/sys/fs/cgroup"
+        rel = ""
+        for ln in open("/proc/self/cgroup"):
+            t = ln.strip().split(":", 2)
+            if len(t) == 3 and t[0] == "0":
+                rel = t[2]
+        d = os.path.join(cg, rel.lstrip("/"))
+        while True:     # the tightest limit on the way up to the root
+            mx = os.path.join(d, "memory.max")
+            if os.path.exists(mx):
+                v = open(mx).read().strip()
+                if v != "max":
+                    used = int(open(os.path.join(d, "memory.current")).read().strip()) if os.path.exists(os.path.join(d, "memory.current")) else 0
+                    avail = min(avail, (int(v) - used) / (1 << 30))
+            if os.path.realpath(d) == os.path.realpath(cg):
+                break
+            d = os.path.dirname(d)
+        # cgroup v1: the memory controller's own hierarchy
+        for ln in open("/proc/self/cgroup"):
+            t = ln.strip().split(":", 2)
+            if len(t) == 3 and "memory" in t[1].split(","):
+                d = os.path.join(cg, "memory", t[2].lstrip("/"))
+                while True:
+                    lim = os.path.join(d, "memory.limit_in_bytes")
+                    if os.path.exists(lim):
+                        v = int(open(lim).read().strip())
+                        if v < (1 << 60):
+                            use = os.path.join(d, "memory.usage_in_bytes")
+                            used = int(open(use).read().strip()) if os.path.exists(use) else 0
+                            avail = min(avail, (v - used) / (1 << 30))
+                    if os.path.realpath(d) == os.path.realpath(os.path.join(cg, "memory")):
+                        break
+                    d = os.path.dirname(d)
+    except (OSError, ValueError):
         pass
-    return 0.0
+    return avail
 
 
 def run_hugesim(ctx, flavour, prop, kinds, runs):
